@@ -107,7 +107,10 @@ def par_job(job):
                 continue
             # random interleaving with long runs (a worker running ahead), plus strict alternation now and then
             script = []
-            if k % 4 == 3:
+            if k < len(keys) and k < 3:
+                # one worker runs completely ahead of all the others
+                script = [keys[k]] * 40 + [x for x in keys if x != keys[k]] * 20
+            elif k % 4 == 3:
                 script = [keys[i % len(keys)] for i in range(60)]
             else:
                 while len(script) < 60:
@@ -153,7 +156,7 @@ def check(prop, tier):
             if sc['outs'][0]['out']['adversarial']:
                 continue
             o = sc['outs'][li % len(sc['outs'])]
-            jobs.append((sc, o['cfg'], o['out'], 4 if tier == 'quick' else 8, seed() * 1000 + li))
+            jobs.append((sc, o['cfg'], o['out'], 6 if tier == 'quick' else 10, seed() * 1000 + li))
         with Pool(12) as pool:
             outs = pool.map(par_job, jobs, chunksize=2)
         all_traces = []
@@ -200,7 +203,7 @@ def check(prop, tier):
         shutil.rmtree(work, ignore_errors=True)
     res.cov['exhaustive'] = True
     res.cov['rule'] = ('model: 9720 scenarios (3 trees x 1-2 + 1 file patches from 9 abstract file patches x optional -R x 2 backup configs) x all interleavings of 2 (thorough: and 3) workers, TLC exhaustive; '
-                       'binary: stratified sample of the Outcome scenarios, each run with 1, 2, 3, 4, 8, 16 threads on a free schedule and under 4 (thorough 8) scripted schedules (random runs of 1-12 turns, and strict '
+                       'binary: stratified sample of the Outcome scenarios, each run with 1, 2, 3, 4, 8, 16 threads on a free schedule and under 6 (thorough 10) scripted schedules (each worker running completely ahead once, random runs of 1-12 turns, strict '
                        'alternation) enforced at every consider / file-operation point; each forced run is also trace-validated against the model')
     res.assumptions += ['the baton hooks sit at every shared-state access (apply_worker loop top, every file operation); strace-based checks (C10, C15, C19) cross-check the operation hooks']
     return res
